@@ -293,6 +293,23 @@ func (c *EvalCtx) eval(e Expr, want *Sort) (Val, error) {
 		// ghost qualified names / struct field through pointer or value
 		xv, err := c.eval(n.X, nil)
 		if err != nil {
+			// pkg.Name: a package-level variable of another package (io.EOF), when `pkg` names nothing else
+			if id, ok := n.X.(EIdent); ok && strings.Contains(err.Error(), "unknown identifier") && c.x.w.prog != nil {
+				var found *ssa.Global
+				for _, p := range c.x.w.prog.AllPackages() {
+					if p.Pkg.Name() == id.Name {
+						if g, ok := p.Members[n.F].(*ssa.Global); ok {
+							if found != nil && found != g {
+								return Val{}, c.errf("ambiguous package name %q for %s.%s", id.Name, id.Name, n.F)
+							}
+							found = g
+						}
+					}
+				}
+				if found != nil {
+					return c.x.loadAtQuiet(c.st, c.x.globalAddr(found)), nil
+				}
+			}
 			return Val{}, err
 		}
 		return c.selectField(xv, n.F)
